@@ -1,17 +1,219 @@
-"""Per-property configuration of ./check: Lean obligations, campaigns, compared observables."""
+"""Per-property configuration of ./check: Lean obligations, campaigns, compared observables.
 
-OPS_Q = [("ops", 24, 110)]
-OPS_T = [("ops", 240, 200), ("policy-ops", 120, 200)]
+campaign tuples: (campaign, cases, len).  kinds: first letters of the observation lines compared
+between the real library and the model for this property:
+  O open outcome   R call outcome   E effects   S queue state   F files/disk   U memory used
+  D directory digest   G range result   B/N codec bytes / read-back   K entry decode   M file name
+  J journal invariant
+"""
+
+ALL = "ORESFUDGBNKMJ"
 
 PROPS = {
+    "C01": {
+        "theorems": ["MRL.C01J.C01_journal", "MRL.C01J.C01_journal_run", "MRL.C01J.reach_structure", "MRL.suffix_lemma",
+                     "MRL.C07.C07_roundtrip", "MRL.C07.decode_encode", "MRL.C05.C05_history"],
+        "examples": 4,
+        "modules": ["MRL.Props.C01", "MRL.Props.C01Journal"],
+        "kinds": "OSDFJ",
+        "campaigns": {"quick": [("ops", 24, 110), ("ops-journal", 8, 60)],
+                      "thorough": [("ops", 300, 220), ("policy-ops", 150, 200), ("ops-journal", 64, 90), ("names", 60, 120)]},
+        "rule": "random histories over 1-5 queues (create/delete/re-create, batches, explicit positions, truncation into the future) with "
+                "cursor-relative payload sizes and restarts at random points; non-trivial = at least one roll-over, one file unlinked and one "
+                "restart compared; oracle on the real library: observable state before drop = state after open; the journal invariant "
+                "(replaying the entries located in tracked files gives the queues) is evaluated by the model driver after every call",
+        "assumptions": ["OS file semantics and std::io::BufWriter are modelled (DESIGN §8)"],
+    },
+    "C02": {
+        "theorems": [],
+        "examples": 0,
+        "level": "fault_enumeration",
+        "kinds": "ODSFRE",
+        "campaigns": {"quick": [("crash", 20, 60)], "thorough": [("crash", 200, 120), ("crash-policies", 100, 100)]},
+        "rule": "histories under a flush-per-operation policy; the effect trace is turned into OS-level operations through the BufWriter model; "
+                "crash points = every file create/set_len/unlink boundary, operation boundaries, and byte cuts 1,3,4,6,7,8,mid,len-1 plus "
+                "0,1,4,6,7,8 bytes around every frame start inside every write; each image is opened by the real library and by the model; "
+                "oracle: recovered state = state after the completed calls, or with the in-flight call applied, or a truncate/delete seen "
+                "partially applied; a quarter of the points get a continuation history and a restart; non-trivial = cut inside a write and "
+                "a roll-over in the history",
+        "assumptions": ["process-crash model: effects reach the OS in program order; create/set_len/unlink atomic"],
+    },
+    "C03": {
+        "theorems": [],
+        "examples": 0,
+        "level": "fault_enumeration",
+        "kinds": "ODSFRE",
+        "campaigns": {"quick": [("crash-policies", 20, 60)], "thorough": [("crash-policies", 240, 120)]},
+        "rule": "as C02 under all seven policies (DoNothing, OnDelay never/always due x Flush/FlushAndFsync, Always x 2) with explicit persist "
+                "calls; a persist point is a call after which the BufWriter is empty; oracle: the state recovered from any later crash image "
+                "is the state after j calls for some j >= last persist point (power loss = prefix of the OS operations no shorter than the "
+                "last fsync, which under the ordered-persistence assumption is a process-crash image at an earlier point)",
+        "assumptions": ["ordered persistence: bytes and directory operations reach stable storage in program order; fsync forces everything before it"],
+    },
+    "C04": {
+        "theorems": ["MRL.C04.spec_next_mono", "MRL.C04.spec_append_fresh", "MRL.C04.spec_run_next_mono",
+                     "MRL.C04.spec_below_preserved", "MRL.C04.C04_model_next_mono", "MRL.C04.C04_model_run_next_mono",
+                     "MRL.C04.C04_model_append_fresh"],
+        "examples": 3,
+        "kinds": "ORS",
+        "campaigns": {"quick": [("ops", 16, 110), ("crash", 8, 50)], "thorough": [("ops", 200, 200), ("crash-policies", 100, 100)]},
+        "rule": "ops and crash campaigns; oracle: within one incarnation of a queue every append returns positions >= the previous next "
+                "position, also for the first append after a restart or a crash recovery (idle empty queues across GC passes included)",
+        "assumptions": ["restart / crash legs rest on C01 / C02 (journal theorem + correspondence)"],
+    },
+    "C05": {
+        "theorems": ["MRL.C05.C05_refines", "MRL.C05.C05_history", "MRL.C05.C05_history_pointwise", "MRL.C05.range_eq_filter",
+                     "MRL.C05.lastPosition_eq", "MRL.C05.lastRecord_eq", "MRL.C05.get_abs", "MRL.C05.Inv_empty"],
+        "examples": 1,
+        "kinds": "RSG",
+        "campaigns": {"quick": [("ops", 24, 110), ("edge", 4, 0)], "thorough": [("ops", 300, 220), ("policy-ops", 100, 200), ("edge", 32, 0)]},
+        "rule": "ops campaign: every call outcome, the full observable state after every call and every range result (all 9 bound shapes drawn "
+                "around existing positions) compared with the Rust copy of the specification and with the Lean model; edge campaign: positions "
+                "at the top of the u64 range (known finding F4)",
+        "assumptions": ["positions < 2^64-1 (Fits); the in-memory ring buffer offsets are not modelled (payload kept per record)"],
+    },
+    "C06": {
+        "theorems": ["MRL.C17.files_grow_by_succ", "MRL.C17.files_accounted", "MRL.C17.cur_tracked"],
+        "examples": 0,
+        "module": "MRL.Props.C17",
+        "kinds": "FDE",
+        "campaigns": {"quick": [("ops", 24, 110)], "thorough": [("ops", 300, 220), ("policy-ops", 100, 200)]},
+        "rule": "ops campaign; after every truncate/delete/open: the directory listing is a contiguous run ending at the file being written, no "
+                "file older than min(file of the oldest retained record [write cursor when its append began], file being written when the call "
+                "began), disk_used_bytes = files x file size; non-trivial = a call that unlinked a file",
+        "assumptions": [],
+    },
+    "C07": {
+        "theorems": ["MRL.C07.C07_roundtrip", "MRL.C07.C07_nonvacuous", "MRL.C07.writeEntryBufs_frames", "MRL.C07.entryFrames_shape",
+                     "MRL.C07.writeEntry_bytes_count", "MRL.C07.decode_encode"],
+        "examples": 2,
+        "kinds": "BNK",
+        "campaigns": {"quick": [("bytes", 32, 150)], "thorough": [("bytes", 400, 300), ("ops", 100, 200)]},
+        "rule": "bytes campaign through hook H4 (real RecordWriter/RecordReader over in-memory 32 KiB blocks): sequences of 1-6 entries whose "
+                "lengths are chosen so that each ends 0..15 bytes before a block end, exactly at it, spans 1-9 blocks or is ~300 KiB; written "
+                "bytes compared byte-for-byte (hash) and read-back entry-for-entry with the model; oracle: read-back = written",
+        "assumptions": ["crc32 is an uninterpreted function in the proofs; B <= 65542 for the 2-byte length field"],
+    },
+    "C08": {
+        "theorems": ["MRL.C08.recover_sorted", "MRL.C08.recover_sorted'", "MRL.C08.replay_records_subset", "MRL.C08.replay_is_fold",
+                     "MRL.C08.recover_records_subset", "MRL.C12.assemble_whole_entry"],
+        "examples": 3,
+        "modules": ["MRL.Props.C08", "MRL.Props.C12"],
+        "kinds": "ODS",
+        "campaigns": {"quick": [("damage", 16, 70)], "thorough": [("damage", 200, 120), ("damage-aimed", 60, 100)]},
+        "rule": "damage campaign: final image of a history (with delete/re-create, GC) + 10-20 damage variants each: aimed at crc/payload of "
+                "one traced frame, at a length or type byte, zero/garbage ranges up to 3 blocks, transposed blocks, overwritten files; oracle "
+                "(in-place variants): every recovered record equals (queue, position, payload) of some append, positions strictly increase",
+        "assumptions": ["no CRC-32 collision; damage that copies valid WAL content is finding F5"],
+    },
+    "C09": {
+        "theorems": [],
+        "examples": 0,
+        "level": "fault_enumeration",
+        "kinds": "ODS",
+        "campaigns": {"quick": [("damage-aimed", 16, 70)], "thorough": [("damage-aimed", 240, 120)]},
+        "rule": "aimed damage: a traced frame still on disk, alteration (bit flip / garbage / inverted byte) confined to its checksum or payload "
+                "bytes; oracle: open succeeds and every retained record of the specification that does not belong to the append call that "
+                "wrote the frame is recovered with the same position and payload",
+        "assumptions": ["the altered frame fails its CRC (no collision)"],
+    },
+    "C10": {
+        "theorems": [],
+        "examples": 0,
+        "level": "fault_enumeration",
+        "kinds": "ODSNK",
+        "campaigns": {"quick": [("damage", 12, 70), ("bytes", 16, 120), ("edge", 4, 0)],
+                      "thorough": [("damage", 200, 120), ("bytes", 300, 300), ("names", 60, 100), ("edge", 32, 0)]},
+        "rule": "damage campaign (all classes incl. truncated/removed/duplicated files, transposed blocks) + crafted block content through the "
+                "real reader (valid-CRC frames with hostile type/length fields, orphan Middle/Last, malformed entries) under catch_unwind and "
+                "a 20 s watchdog; read accessors exercised on every recovered log",
+        "assumptions": ["OS behaviour (odd directory entries, allocation failure) is exercised, not modelled"],
+    },
+    "C11": {
+        "theorems": ["MRL.C11.io_reported", "MRL.C11.io_irrelevant_beyond", "MRL.C11.never_partial",
+                     "MRL.C11.fault_never_ok_on_bad_image", "MRL.C11.fault_outcomes", "MRL.C11.ioCalls_bounded"],
+        "examples": 5,
+        "kinds": "OS",
+        "campaigns": {"quick": [("fault", 12, 60)], "thorough": [("fault", 150, 120)]},
+        "rule": "fault campaign (hook H3): for a WAL image spanning 1-5 files, an I/O error (six kinds, transient or persistent) injected at "
+                "every index of the list/open/read calls recovery makes, plus two beyond; oracle: Err(Io) iff the index is reached, else the "
+                "fault-free log; 20 s watchdog",
+        "assumptions": ["ErrorKind::UnexpectedEof is excluded: read_exact's short-file signal is handled by design"],
+    },
+    "C12": {
+        "theorems": ["MRL.C12.replay_batch_suffix", "MRL.C12.batch_suffix_fresh", "MRL.C12.batch_all_or_nothing",
+                     "MRL.C12.assemble_whole_entry"],
+        "examples": 4,
+        "kinds": "ODS",
+        "campaigns": {"quick": [("crash", 10, 60), ("damage", 10, 70)], "thorough": [("crash-policies", 150, 110), ("damage", 150, 110)]},
+        "rule": "crash and damage campaigns with batches of 2-6 records sized to span blocks and files; oracle: for every batch whose queue "
+                "incarnation is current, the recovered records of the batch are a suffix of it (false* true*)",
+        "assumptions": ["damage that copies valid WAL content is finding F5"],
+    },
     "C13": {
         "theorems": ["MRL.C13.C13_no_trace", "MRL.C13.C13_disk_untouched", "MRL.C13.C13_zero_bytes"],
         "examples": 1,
         "kinds": "RESFUDO",
-        "campaigns": {"quick": OPS_Q, "thorough": OPS_T},
-        "rule": "random histories (cursor-relative sizes) with every rejected/no-op call shape inserted at random points; "
-                "a case is non-trivial if it rolled a file over, unlinked a file and was restarted; oracle: a rejected/no-op "
-                "call has an empty file-system trace, reports 0 bytes and leaves the observable state (also after restart) unchanged",
-        "assumptions": ["effects not reported by the hooks (a write bypassing RollingWriter) are only seen through the directory digests"],
+        "campaigns": {"quick": [("ops", 24, 110)], "thorough": [("ops", 240, 200), ("policy-ops", 120, 200)]},
+        "rule": "random histories (cursor-relative sizes) with every rejected/no-op call shape inserted at random points; non-trivial = rolled a "
+                "file over, unlinked a file and was restarted; oracle: a rejected/no-op call has an empty file-system trace, reports 0 bytes "
+                "and leaves the observable state (also after restart) unchanged",
+        "assumptions": ["effects not reported by the hooks are only seen through the directory digests"],
+    },
+    "C14": {
+        "theorems": ["MRL.C14.C14_policy_irrelevant", "MRL.C14.C14_history", "MRL.C14.step_keeps_policy", "MRL.C14.C14_same_image",
+                     "MRL.C14.C14_history_same_image", "MRL.C14.same_image_literal_false"],
+        "examples": 2,
+        "kinds": "ORESFUG",
+        "campaigns": {"quick": [("lockstep", 6, 70)], "thorough": [("lockstep", 60, 150), ("policy-ops", 100, 150)]},
+        "rule": "one generated history (with persist calls and restarts) replayed under all seven policies in lock-step; oracle: identical "
+                "outcomes (incl. byte counts), states, range results and sync-erased effects (writes summarised by size: the GC's empty-queue "
+                "entries follow the hash map's iteration order)",
+        "assumptions": ["an I/O error returned by a flush is not modelled"],
+    },
+    "C15": {
+        "theorems": ["MRL.C15.C15_bytes_exact", "MRL.C15.C15_zero_iff", "MRL.C15.C15_contiguous", "MRL.C15.C15_writes_nonempty"],
+        "examples": 2,
+        "kinds": "REBO",
+        "campaigns": {"quick": [("ops", 24, 110), ("bytes", 8, 100)], "thorough": [("ops", 300, 220), ("bytes", 100, 200)]},
+        "rule": "ops campaign: wal_bytes_written of every create/delete/append/truncate compared with the summed sizes of the Write events of "
+                "that call (padding, headers, GC position entries included) and with the model; non-trivial = includes calls with GC bytes",
+        "assumptions": ["bytes written by the GC pass of open() are not surfaced by the API (outside the statement)"],
+    },
+    "C16": {
+        "theorems": ["MRL.C16.C16_used_exact", "MRL.C16.C16_used_split", "MRL.C16.C16_used_ge", "MRL.C16.C16_used_le",
+                     "MRL.C16.C16_truncate_drop", "MRL.C16.C16_truncate_noop", "MRL.C16.C16_baseline"],
+        "examples": 3,
+        "kinds": "US",
+        "campaigns": {"quick": [("ops", 24, 110)], "thorough": [("ops", 300, 220)]},
+        "rule": "ops campaign; after every call: names + payload <= memory_used_bytes <= names + payload + META x records (META measured on the "
+                "real build and compared with the generated constant), used <= allocated, names-only baseline when all queues are empty; "
+                "memory_used_bytes compared with the model after every state dump",
+        "assumptions": ["used <= allocated rests on capacity >= len of std collections (tested, not proved)"],
+    },
+    "C17": {
+        "theorems": ["MRL.C17.parse_fileName", "MRL.C17.parse_format", "MRL.C17.parse_some_iff", "MRL.C17.parse_injective",
+                     "MRL.C17.parse_wrong_length", "MRL.C17.parse_nondigit", "MRL.C17.parse_non_ascii", "MRL.C17.parse_overflow",
+                     "MRL.C17.listWal_only_named", "MRL.C17.effects_named_partial", "MRL.C17.effects_named_of_no_unlink",
+                     "MRL.C17.files_grow_by_succ", "MRL.C17.files_accounted", "MRL.C17.effects_named_false"],
+        "examples": 9,
+        "kinds": "OSFDEM",
+        "campaigns": {"quick": [("names", 12, 80), ("bytes", 8, 100)], "thorough": [("names", 150, 160), ("bytes", 100, 200)]},
+        "rule": "names campaign: 14 foreign entries (23/25-char names, letters, sign, non-ASCII digit, wrong prefix/case, suffixes, a "
+                "sub-directory and a symlink with valid WAL names) present from the first open; the WAL files are renumbered with gaps "
+                "mid-history; oracle: foreign entries byte-identical at the end, no foreign name created, the library never opens/creates/"
+                "removes a non-tracked number; file-name parser compared with the model on near-miss names",
+        "assumptions": ["DirEntry::file_type().is_file() is modelled as a kind tag"],
+    },
+    "C18": {
+        "theorems": ["MRL.C18.spec_other_untouched", "MRL.C18.spec_outcome_local", "MRL.C18.C18_spec_projection",
+                     "MRL.C18.C18_model_projection", "MRL.C18.C18_model_projection_filter"],
+        "examples": 2,
+        "kinds": "ORSG",
+        "campaigns": {"quick": [("projection", 8, 70)], "thorough": [("projection", 120, 160), ("crash", 40, 80)]},
+        "rule": "a history over 2-4 queues and, for each queue, its projection (calls addressed to it, restarts and persists kept) run on the "
+                "real library; oracle: the queue's records/next position after every kept call and the logical outcomes are identical; "
+                "non-trivial = a file was unlinked while another queue still had records",
+        "assumptions": ["restart and crash legs rest on C01 / C02"],
     },
 }
